@@ -75,7 +75,7 @@ ROOT = os.path.dirname(os.path.dirname(os.path.abspath(__file__)))
 HARNESS_BIN = os.path.join(ROOT, "harness", "target", "debug", "harness")
 DOMAIN = b"noise-libp2p-static-key:"
 NKEYS = 16
-NC_READY = False
+NC_READY = True
 SIZES = {1: 34, 2: 202, 3: 170}           # framed handshake messages (2-byte prefix included)
 
 # ------------------------------------------------------------------ signing service (real ed25519 via the adapter)
@@ -567,7 +567,7 @@ def nc_ops(rng, full):
         o = rng.choice([x for x in range(NKEYS) if x not in (d, l)])
         ops += [f"nc d={d} l={l} dialed={l}", f"nc d={d} l={l} dialed=none", f"nc d={d} l={l} dialed={o}",
                 f"nc d={d} l={l} dialed={d}"]
-    offs = range(62, 232) if full else [62, 63, 64, 100, 112, 113, 200, 231]
+    offs = range(64, 232) if full else [64, 65, 100, 111, 112, 113, 200, 231]
     for off in offs:
         d, l = rng.sample(range(NKEYS), 2)
         ops.append(f"nc d={d} l={l} dialed={rng.choice([l, 'none'])} flip={off}")
